@@ -42,6 +42,9 @@ OUTSIDE = [
 ENCODED = ["mitmproxy.addons.proxyserver:Proxyserver.server_connect"]
 
 _real_ip_address = ipaddress.ip_address
+# the per-query wall-clock limit is a fail-safe, not part of the claim: on a heavily shared machine trivial bit-vector
+# queries were observed to hit the 20 s default ("solver unknown: timeout" => inconclusive); allow them more time.
+symx.QUERY_TIMEOUT_MS = max(symx.QUERY_TIMEOUT_MS, 120000)
 
 
 class SymHost:
